@@ -131,7 +131,7 @@ func runC20(e *Engine, r *Report, tier string) {
 	// ---------- R3 ----------
 	var pm *ssa.Function
 	for _, fn := range e.Funcs {
-		if fn.Name() == "ParseMethodArgs" && fn.Parent() == nil && !isAuxPkg(fnPkgPath(fn)) {
+		if canonName(fn.Name()) == "ParseMethodArgs" && fn.Parent() == nil && !isAuxPkg(fnPkgPath(fn)) {
 			pm = fn
 		}
 	}
